@@ -22,3 +22,61 @@ def fanout(rng):
                          script=[("gate", "c"), ("collect", [T2] * n, None), ("return", StopEvent)]),
     })
     return spec, [], dict(policy=rng.choice(["random", "random", "lifo", "fifo"]))
+
+
+def waitfan(rng):
+    """start sends n T1 -> `b_wait` (k workers) waits for HR(k=<its own i>) (replayed when the response or the
+    timeout arrives), then gated, returns T2 -> `c_gather` collects n T2 -> Stop.  Responses are external sends
+    in a random order, possibly duplicated, possibly before the waiter exists."""
+    n = rng.choice([1, 2, 3, 4])
+    k = rng.choice([1, 2, 3, 4])
+    wev = rng.choice([None, IR])
+    spec = dict(steps={
+        "a_start": dict(accepts=[StartEvent], returns=[T1, type(None)], num_workers=1,
+                        script=[("send", T1, n, None), ("return", None)]),
+        "b_wait": dict(accepts=[T1], returns=[T2], num_workers=k,
+                       script=[("wait", HR, {"k": "$i"}, rng.choice([5.0, 5.0, 50.0]), None, wev, "none"),
+                               ("gate", "w"), ("return", T2)]),
+        "c_gather": dict(accepts=[T2], returns=[StopEvent, type(None)], num_workers=rng.choice([1, 2]),
+                         script=[("collect", [T2] * n, None), ("return", StopEvent)]),
+    })
+    ids = list(range(1, n + 1))
+    rng.shuffle(ids)
+    if rng.random() < 0.4:
+        ids.append(rng.choice(ids))     # a duplicate response
+
+    def mk(i):
+        def f(handler, rec):
+            rec.ev("external", ev="HR", k=i)
+            handler.ctx.send_event(HR(k=i))
+        f.label = "HR(k=%d)" % i
+        return f
+
+    return spec, [mk(i) for i in ids], dict(policy=rng.choice(["random", "lifo", "fifo"]))
+
+
+TEMPLATES = [fanout, waitfan]
+
+
+def targeted(rng):
+    """start sends n T1, each either broadcast or addressed to one of two steps that both accept T1;
+    b1/b2 (gated) answer T2; gather collects exactly the number of deliveries the property demands."""
+    n = rng.choice([1, 2, 3, 4])
+    tg = [rng.choice([None, "b1", "b2"]) for _ in range(n)]
+    m = sum(2 if t is None else 1 for t in tg)
+    spec = dict(steps={
+        "a_start": dict(accepts=[StartEvent], returns=[T1, type(None)], num_workers=1,
+                        script=[("send", T1, 1, t) for t in tg] + [("return", None)]),
+        "b1": dict(accepts=[T1], returns=[T2], num_workers=rng.choice([1, 2, 3]),
+                   script=[("gate", "w"), ("return", T2)]),
+        "b2": dict(accepts=[T1], returns=[T2], num_workers=rng.choice([1, 2]),
+                   script=[("gate", "w"), ("return", T2)]),
+        "c_gather": dict(accepts=[T2], returns=[StopEvent, type(None)], num_workers=1,
+                         script=[("collect", [T2] * m, None), ("return", StopEvent)]),
+    })
+    spec["expected"] = {("b1", i + 1): (1 if t in (None, "b1") else 0) for i, t in enumerate(tg)}
+    spec["expected"].update({("b2", i + 1): (1 if t in (None, "b2") else 0) for i, t in enumerate(tg)})
+    return spec, [], dict(policy=rng.choice(["random", "lifo", "fifo"]))
+
+
+TEMPLATES_C02 = [fanout, targeted, waitfan]
